@@ -111,6 +111,15 @@ func Build(t *CTerm, st *Store) seq.Seq[int] {
 		default:
 			return seq.For[int](cond, post, body)
 		}
+	case KIte:
+		c := t.C
+		return seq.Delay[int](func() seq.Seq[int] {
+			c.Sc.run("c", 0, st)
+			if st.get(c.J) < c.N {
+				return Build(t.A, st)
+			}
+			return Build(t.B, st)
+		})
 	}
 	panic("bad kind")
 }
